@@ -61,7 +61,7 @@ def _client_calls(ctx):
                 ep = _endpoint_of(pr[0])
                 # request type: the post_request call site
                 site = pr[0][3]
-                pt = P.bodies[site[0]].term(site[1])
+                pt = P.bodies[site[0]].term(P.bodies[site[0]].block_of_site(site[1]))
                 out[ep] = {"req": pt["targs"][0].lstrip("&"), "resp": t["targs"][0], "body": b.id, "bb": bb}
     return out
 
